@@ -40,6 +40,7 @@ type Contract struct {
 	Havoc    bool // call havocs whole heap in addition to modifies (unknown effects)
 	Inline   bool // callers inline the body instead of using the contract
 	NoFrame  bool
+	NoInv    bool // object invariants of the receiver are neither assumed nor checked (thin safety contracts)
 	Unshared bool
 	Getter   bool // pure getter: the result is a function of the receiver (and its ghost version)
 	LocalCalls bool // calls through function values only affect the objects passed to them
@@ -151,6 +152,7 @@ type LockDiscipline struct {
 	Mutex string // mutex field
 	Props []string
 	Held  map[string]bool // methods that are called with the mutex already held
+	WHeld map[string]bool // methods that are called with the mutex write-held
 	Skip  map[string]bool
 	Pkg   string
 }
@@ -221,6 +223,8 @@ func (cs *ContractSet) loadContractText(path string, pkgPath string, text string
 					c.Getter = true
 				case "localcalls":
 					c.LocalCalls = true
+				case "noinv":
+					c.NoInv = true
 				case "havocheap":
 					c.HavocHeap = true
 				case "function":
@@ -322,12 +326,12 @@ func (cs *ContractSet) loadContractText(path string, pkgPath string, text string
 				errf(i, "lockdiscipline pkg.Type mutex props Cxx [held: ...] [skip: ...]")
 				continue
 			}
-			ld := LockDiscipline{Type: fields[1], Mutex: fields[2], Props: splitProps(fields[4]), Held: map[string]bool{}, Skip: map[string]bool{}, Pkg: pkgPath}
-			rest := strings.Join(fields[5:], " ")
+			ld := LockDiscipline{Type: fields[1], Mutex: fields[2], Props: splitProps(fields[4]), Held: map[string]bool{}, WHeld: map[string]bool{}, Skip: map[string]bool{}, Pkg: pkgPath}
+			rest := " " + strings.Join(fields[5:], " ")
 			for _, part := range []struct {
 				tag string
 				m   map[string]bool
-			}{{"held:", ld.Held}, {"skip:", ld.Skip}} {
+			}{{" held:", ld.Held}, {"wheld:", ld.WHeld}, {"skip:", ld.Skip}} {
 				if k := strings.Index(rest, part.tag); k >= 0 {
 					seg := rest[k+len(part.tag):]
 					if e := strings.IndexAny(seg, ":"); e >= 0 {
